@@ -10,6 +10,10 @@ HOSTILE_STRINGS = [
     ("dquote", 'a"b'), ("backslash", "a\\b"), ("empty", ""), ("comment-end", "x*/y"), ("comment-start", "/*x"),
     ("newline", "line1\nline2"), ("squote", "it's"), ("backtick", "a`b"), ("brace", "a}b{"), ("colon", "a:b"),
     ("tab", "a\tb"), ("only-space", " "), ("unicode-escape-like", "\\u0041"),
+    # alphanumeric for Unicode, but no identifier character for TypeScript
+    ("alnum-not-identifier", "x\u00b2"), ("alnum-not-identifier", "\u2460st"), ("alnum-not-identifier", "a\u00bdb"),
+    # what the object-merging rewrite looks for
+    ("splice-pattern", "a } & { b"), ("line-separator", "a\u2028b"),
 ]
 
 FIELD_IDENTS = ["r#type", "r#struct", "r#fn", "delete", "class", "function", "new", "void", "r#typeof", "instanceof", "ünï", "ñ",
